@@ -156,12 +156,21 @@ example : (deb822Wrap none (some (paragraphWrap exCfgC none none)) exDocC.tree).
             [("Package".toList, "a".toList), ("Files".toList, "f1".toList)]] := by
   decide +kernel
 
-/-- the paragraph-level hypotheses on the first paragraph of the example (text follows it) -/
-example : ∀ pg ∈ exDocC.paras.take 1, pg.1.WF ∧ pg.1.Term true := by decide
+/-- the two paragraphs of the example on their own: text follows the first; the second ends the
+    input and its last line (a value line after a comment line) has no terminator -/
+def exParaC1 : Spec.ParaC := (exDocC.paras.map (·.1)).headD ⟨⟨[], [], [], true, []⟩, []⟩
+def exParaC2 : Spec.ParaC := ((exDocC.paras.map (·.1)).drop 1).headD ⟨⟨[], [], [], true, []⟩, []⟩
 
-/-- the embedding is not vacuous: `exDocS` of Props/C07.lean is such a document (checked there) -/
-example : ∃ d : Spec.DocS, d.WF ∧ d.paras ≠ [] :=
-  ⟨{ lead := [], paras := [({ first := ⟨['A'], [' '], ['b'], true, [⟨[' '], ['c'], false⟩]⟩, rest := [] }, [])] },
-    by decide, by simp⟩
+example : exParaC1.WF ∧ exParaC1.Term true ∧ exParaC2.WF ∧ exParaC2.Term false ∧ ¬ exParaC2.Term true := by
+  decide
+
+example : (paragraphWrap exCfgC none none exParaC2.node).map Node.text
+    = some "Package: a\nFiles:\n    #first\n    f1\n".toList := by decide +kernel
+
+/-- the embedding is not vacuous: a well-formed `DocS` (a field with a continuation line) -/
+def exEmbed : Spec.DocS :=
+  { lead := [], paras := [({ first := ⟨['A'], [' '], ['b'], true, [⟨[' '], ['c'], false⟩]⟩, rest := [] }, [])] }
+
+example : exEmbed.WF ∧ exEmbed.toC.WF ∧ exEmbed.toC.str = "A: b\n c".toList := by decide
 
 end Deb822Verif.Props.C07
